@@ -17,6 +17,11 @@ import fcntl
 import glob
 import json
 import os
+import sys as _sys
+if os.environ.get("PYTHONHASHSEED") != "0":
+    # generators must not depend on the per-process string hash (set iteration order)
+    os.environ["PYTHONHASHSEED"] = "0"
+    os.execv(_sys.executable, [_sys.executable] + _sys.argv)
 import random
 import re
 import subprocess
